@@ -403,6 +403,13 @@ def run(ctx):
         ctx.violation({"case": "MutableState API: thaw; get_inner; insert zz; make_fresh_generation (insert, delete; dropped); "
                                "freeze with SizeCollector; compare with from_iterator of the same contents; thaw; freeze",
                        "observed": a}, "MutableState API: hash not canonical / refreeze charges: %s" % a)
+    for shape in ("memory", "stored", "cached"):
+        m = obs.get("migrate_source_" + shape)
+        if m is None or m.get("panic") or not m.get("migrated_state_ok") or not m.get("source_readable_with_old_store"):
+            ctx.violation({"case": "from_iterator {aa,ab(70 bytes),abc,b,ba} (%s); migrate to a fresh store; read the migrated "
+                                   "state with the new store and the SOURCE state with its old store" % shape, "observed": m},
+                          "migrate (%s source): migrated state wrong or the source state no longer readable with its own "
+                          "store: %s" % (shape, m))
     ctx.cov["rule"] = (
         "histories of 3-185 operations (40% 2-17, 40% 15-65, 20% 60-180 before the closing freeze) over an adversarial key "
         "universe per history (as C03: 1-3 bases of 0-70 bytes from {00,ff,10,01,0f,f0,11,ab,80,7f,random}; variants "
